@@ -136,7 +136,12 @@ fn tv(prop: E7Prop, step: usize, class: &str, msg: String) -> Violation {
 pub fn run_tinylfu(c: &TCase, prop: E7Prop) -> CaseReport {
     reset_case();
     let mut rep = CaseReport::default();
+    // a third of the cases get byte buffers that are not word aligned (legal for align-1
+    // allocations): the sketch rows and the doorkeeper must not depend on their address
+    let seed = c.sketch_seed.unwrap_or(0);
+    crate::alloc::set_misalign(if seed % 3 == 0 { 1 + (seed / 3 % 7) as u8 } else { 8 });
     let r = catch_unwind(AssertUnwindSafe(|| run_tinylfu_inner(c, prop, &mut rep)));
+    crate::alloc::set_misalign(8);
     match r {
         Ok(Ok(())) => {}
         Ok(Err(v)) => rep.violation = Some(v),
@@ -692,6 +697,69 @@ pub fn run_sampled_str(c: &SCase) -> Option<Violation> {
                 let got = s.room_left(0);
                 if got != want {
                     return Some(sv(E7Prop::C20, i, "str-room-left", format!("step {i} {op:?} (String keys): room_left(0) = {got}, expected {want}; tracked {:?}", m)));
+                }
+            }
+        }
+        None
+    }));
+    match r {
+        Ok(v) => v,
+        Err(_) => {
+            let _ = take_last_panic();
+            None
+        }
+    }
+}
+
+// ------------------------------------------------------------------ TinyLFU with unsized borrowed keys
+
+/// `TinyLFU<String>` driven through `&str` keys that are *overlapping slices of one buffer*
+/// (prefixes: same start address, different lengths) and through separately allocated equal
+/// strings: lt/le/gt/ge/eq must order two keys exactly as their estimates do, whatever the
+/// addresses of the borrowed forms are (C11, last clause; C17 address independence)
+pub fn run_tinylfu_str(c: &TCase) -> Option<Violation> {
+    #[cfg(feature = "std")]
+    caches::lfu::verif_pin_sketch_seed(c.sketch_seed);
+    let built = TinyLFUBuilder::<String, KHS<String>>::with_hasher(mk_khs::<String>(c.kh)).set_size(c.size).set_samples(c.samples).set_false_positive_ratio(c.fp).finalize();
+    #[cfg(feature = "std")]
+    caches::lfu::verif_pin_sketch_seed(None);
+    let mut t = built.ok()?;
+    let buf = String::from("k0k1k2k3k4k5");
+    let r = catch_unwind(AssertUnwindSafe(|| -> Option<Violation> {
+        for (i, op) in c.ops.iter().enumerate() {
+            let (h, n) = match op {
+                TOp::Inc(h) | TOp::IncHashed(h) | TOp::Probe(h) => (*h, 1u32),
+                TOp::Burst(h, n) => (*h, *n as u32),
+                TOp::Cmp(a, _) => (*a, 0),
+                TOp::Clear => {
+                    t.clear();
+                    continue;
+                }
+                TOp::TryReset => {
+                    t.try_reset();
+                    continue;
+                }
+                _ => continue,
+            };
+            let key: &str = &buf[..2 * ((h % 6) as usize + 1)];
+            for _ in 0..n {
+                t.increment(key);
+            }
+            if i % 8 != 7 && i + 1 != c.ops.len() {
+                continue;
+            }
+            for x in 0..6usize {
+                for y in 0..6usize {
+                    let (a, b): (&str, &str) = (&buf[..2 * (x + 1)], &buf[..2 * (y + 1)]);
+                    // also through a separately allocated copy of the same key
+                    let b_owned = String::from(b);
+                    let (ea, eb) = (t.estimate(a), t.estimate(b));
+                    let want = (ea < eb, ea <= eb, ea > eb, ea >= eb, ea == eb);
+                    let got = (t.lt(a, b), t.le(a, b), t.gt(a, b), t.ge(a, b), t.eq(a, b));
+                    let got2 = (t.lt(a, b_owned.as_str()), t.le(a, b_owned.as_str()), t.gt(a, b_owned.as_str()), t.ge(a, b_owned.as_str()), t.eq(a, b_owned.as_str()));
+                    if got != want || got2 != want {
+                        return Some(tv(E7Prop::C11, i, "str-compare", format!("step {i}: keys {:?} and {:?} (prefix slices of one buffer): estimates {ea} and {eb}, but (lt, le, gt, ge, eq) = {:?} through the slices and {:?} through a separately allocated copy, expected {:?}", a, b, got, got2, want)));
+                    }
                 }
             }
         }
